@@ -14,6 +14,10 @@ func init() {
 		if "quietspell" == kind {
 			return quietSpellReplay(raw)
 		}
+		if "c03handler" == kind || "c03http" == kind || "c03stress" == kind {
+			fmt.Println("HTTP- and handler-seam findings are replayed by re-running ./run C03 quick (these parts take seconds); the failing case is in the artefact")
+			return 2
+		}
 		if "c03term" == kind {
 			fmt.Println("terminal-seam findings are replayed by re-running ./run C03 quick (the enumeration takes seconds); the failing case is in the artefact")
 			return 2
@@ -68,6 +72,7 @@ func c03Profiles(quick bool) []*bworld.Profile {
 			MaxOuts:     4,
 			Cancel:      true,
 			MaxConsume:  8,
+			Await:       true,
 			Oracles:     []string{"C03"},
 		}
 	}
@@ -93,6 +98,12 @@ func c03(r *ev.Result, tier string) {
 	exploreProfiles(r, budget, c03Profiles(isQuick(tier))...)
 	/* The HTTP seam: the same clauses through the real handlers over TLS. */
 	c03HTTP(r)
+	c03Handler(r)
+	if isQuick(tier) {
+		c03PrefixStress(r, 60)
+	} else {
+		c03PrefixStress(r, 1500)
+	}
 	quietSpell(r, "C03")
 	/* The terminal seam: the real Shell on a pty shows exactly what the
 	operator channel carries, in order, however far behind it is. */
